@@ -47,16 +47,23 @@ Step(t) ==
 ProgDone(t) == /\ phase[t] = "prog" /\ pc[t] > Len(Prog[t]) /\ phase' = [phase EXCEPT ![t] = "read"]
                /\ UNCHANGED <<rc, dead, ndestroy, pc, tmp, bad, seed, cand, used, mainput>>
 \* lh_char_hash: if (random_seed == -1) { seed = own candidate; CAS } ; hash with random_seed
+\* The entropy source may answer with -1 itself - the very value that means "not chosen yet": such a draw is repeated
+\* (while ((seed = json_c_get_random_seed()) == -1) {}).  Here every thread's FIRST draw is the sentinel (cand = -2
+\* records "drew it once"); switch "publish_sentinel": the draw is used as it comes.
 ReadSeed(t) == /\ phase[t] = "read"
-               /\ IF seed = -1 THEN cand' = [cand EXCEPT ![t] = 100 + t] /\ phase' = [phase EXCEPT ![t] = "publish"]
+               /\ IF seed = -1
+                  THEN IF cand[t] = -1 THEN /\ cand' = [cand EXCEPT ![t] = -2]
+                                            /\ phase' = [phase EXCEPT ![t] = IF "publish_sentinel" \in MUTT THEN "publish" ELSE "read"]
+                       ELSE cand' = [cand EXCEPT ![t] = 100 + t] /\ phase' = [phase EXCEPT ![t] = "publish"]
                   ELSE phase' = [phase EXCEPT ![t] = "hash1"] /\ UNCHANGED cand
                /\ UNCHANGED <<rc, dead, ndestroy, pc, tmp, bad, seed, used, mainput>>
 Publish(t) == /\ phase[t] = "publish"
-              /\ seed' = IF "plain_store" \in MUTT THEN cand[t] ELSE (IF seed = -1 THEN cand[t] ELSE seed)
+              /\ LET c == IF cand[t] = -2 THEN -1 ELSE cand[t] IN
+                 seed' = IF "plain_store" \in MUTT THEN c ELSE (IF seed = -1 THEN c ELSE seed)
               /\ phase' = [phase EXCEPT ![t] = "hash1"]
               /\ UNCHANGED <<rc, dead, ndestroy, pc, tmp, bad, cand, used, mainput>>
 Hash(t) == /\ phase[t] \in {"hash1", "hash2"}
-           /\ used' = [used EXCEPT ![t] = Append(@, IF "hash_own_candidate" \in MUTT /\ cand[t] # -1 THEN cand[t] ELSE seed)]
+           /\ used' = [used EXCEPT ![t] = Append(@, IF "hash_own_candidate" \in MUTT /\ cand[t] \notin {-1, -2} THEN cand[t] ELSE seed)]
            /\ phase' = [phase EXCEPT ![t] = IF phase[t] = "hash1" THEN "hash2" ELSE "done"]
            /\ UNCHANGED <<rc, dead, ndestroy, pc, tmp, bad, seed, cand, mainput>>
 AllDone == \A t \in Thr : phase[t] = "done"
